@@ -44,15 +44,32 @@ theorem step_obs {P : Sketch → Prop} (L : SketchLaws P) {p : Params} (hq : NoQ
   cases op <;> dsimp only at hnext ⊢ <;> (split at hnext <;> simp_all)
 
 theorem snapshot_counters {p : Params} {s : UState} (hi : InvU p s) :
-    Spec.snapCountersOk (snapshot p s) = true := by
+    Spec.snapCountersOk p.weigh (snapshot p s) = true := by
   simp only [Spec.snapCountersOk, snapshot, Bool.and_eq_true, beq_iff_eq]
-  refine ⟨?_, ?_⟩
+  refine ⟨⟨?_, ?_⟩, ?_⟩
   · rw [length_sortBy, List.length_map]; exact hi.counted.ec
   · rw [sum_map_sortBy, List.map_map, hi.counted.ws]
     generalize s.map = m
     induction m with
     | nil => rfl
     | cons a m ih => obtain ⟨k, e⟩ := a; simp [totalW, entryView, ih]
+  · rw [sum_map_sortBy, List.map_map, hi.counted.ws]
+    have hw := hi.counted.weights
+    have hn := hi.struct.keysNodup
+    generalize s.map = m at hw hn
+    induction m with
+    | nil => rfl
+    | cons a m ih =>
+      obtain ⟨k, e⟩ := a
+      simp only [AL.keys_cons, List.nodup_cons] at hn
+      have h1 := hw k e (by simp [AL.get?_cons])
+      have h2 : ∀ k' e', AL.get? m k' = some e' → e'.weight = p.weigh k' e'.val := by
+        intro k' e' h
+        refine hw k' e' ?_
+        rw [AL.get?_cons]
+        have : k ≠ k' := fun e => hn.1 (e ▸ AL.mem_keys_of_get? h)
+        simp [this, h]
+      simp [totalW, entryView, ih h2 hn.2, h1]
 
 end Unsync
 end MiniMoka
